@@ -74,6 +74,9 @@ pub struct Case {
     /// conditionals (constant conditions) with NOPs and code separators before or around the standard script
     #[serde(default)]
     pub wrap: Option<Wrap>,
+    /// also run the spend on the very object that signed (warm hash caches), edited through the setter API
+    #[serde(default)]
+    pub same_object: bool,
 }
 
 #[derive(Clone, Debug, Serialize, Deserialize)]
@@ -207,7 +210,7 @@ impl Property for C15 {
     const ID: &'static str = "C15";
 
     fn rule() -> String {
-        "Spending transactions (1..4 inputs, 0..4 outputs, boundary-valued fields), any input index, any u64 declared value, 1..3 keys (both compression forms, boundary scalars); locking scripts P2PK, P2PKH and bare m-of-n multisig (1<=m<=n<=3), each also in the ...VERIFY OP_1 form, with OP_CODESEPARATOR inserted at random positions, and (35 %) preceded by or placed inside conditionals on constant conditions whose branches hold NOPs, code separators and further conditionals (so the last executed separator may sit inside a taken branch, after a skipped one, or after a whole conditional, and the subscript may begin inside a conditional); each signature's flag from the twelve standard bytes; the spend is built and signed through the library's own API (Transaction::sign, set_locking_script, set_satoshis, pushes for the unlocking script) and then optionally mutated in one field (version, locktime, an outpoint, a sequence, an output value/script, an added output, the declared value, a public key, r, s, the flag byte, signature order, a dropped signature, a foreign signer, a signature over the byte-reversed digest, a signature over the wrong subscript, one signer's signature used twice). Oracle: the reference predicts accept/reject by verifying every (signature, key) pair with the reference ECDSA over reference SHA-256d of the reference preimage (C03/C10 oracle) of the current transaction with the flag from the signature, the subscript after the last code separator executed before the CHECK opcode (found by walking the written-out script with its known conditions) and the declared value, multisig by ordered matching; the library must accept (run Ok and true on top) exactly when the reference does. Non-trivial = a mutated spend, a flag other than ALL, a code separator, a conditional, or m < n; distinct by hash of the serialised case.".into()
+        "Spending transactions (1..4 inputs, 0..4 outputs, boundary-valued fields), any input index, any u64 declared value, 1..3 keys (both compression forms, boundary scalars); locking scripts P2PK, P2PKH and bare m-of-n multisig (1<=m<=n<=3), each also in the ...VERIFY OP_1 form, with OP_CODESEPARATOR inserted at random positions, and (35 %) preceded by or placed inside conditionals on constant conditions whose branches hold NOPs, code separators and further conditionals (so the last executed separator may sit inside a taken branch, after a skipped one, or after a whole conditional, and the subscript may begin inside a conditional); each signature's flag from the twelve standard bytes; the spend is built and signed through the library's own API (Transaction::sign, set_locking_script, set_satoshis, pushes for the unlocking script) and then optionally mutated in one field (version, locktime, an outpoint, a sequence, an output value/script, an added output, the declared value, a public key, r, s, the flag byte, signature order, a dropped signature, a foreign signer, a signature over the byte-reversed digest, a signature over the wrong subscript, one signer's signature used twice). Half of the cases run the spend a second time on the very Transaction object that produced the signatures (its sighash caches warm), edited through set_version / set_nlocktime / set_input / set_output / add_output instead of re-parsed; it must serialise like the re-parsed spend and give the same verdict. Oracle: the reference predicts accept/reject by verifying every (signature, key) pair with the reference ECDSA over reference SHA-256d of the reference preimage (C03/C10 oracle) of the current transaction with the flag from the signature, the subscript after the last code separator executed before the CHECK opcode (found by walking the written-out script with its known conditions) and the declared value, multisig by ordered matching; the library must accept (run Ok and true on top) exactly when the reference does. Non-trivial = a mutated spend, a flag other than ALL, a code separator, a conditional, or m < n; distinct by hash of the serialised case.".into()
     }
 
     fn assumptions() -> Vec<String> {
@@ -246,8 +249,8 @@ impl Property for C15 {
             (any::<u16>(), 0u8..12).prop_map(|(w, f)| Mutation::SameSignerTwice(w, f)),
         ];
         let wrap = (gs::filler(4), prop::option::weighted(0.5, (any::<bool>(), any::<bool>(), gs::filler(4), prop::option::of(gs::filler(3))))).prop_map(|(before, around)| Wrap { before, around });
-        (txs, any::<u16>(), gen::u64_edge(), prop::collection::vec(keys::key(), 1..4), 0u8..3, 1u8..8, any::<bool>(), prop_oneof![2 => Just(vec![]), 3 => prop::collection::vec(any::<u16>(), 1..3)], prop::collection::vec(0u8..12, 3), (prop::option::weighted(0.6, mutation), prop::option::weighted(0.35, wrap)))
-            .prop_map(|(tx, idx, value, keys, kind, signers, verify_form, codeseps, flags, (mutation, wrap))| Case { tx, idx, value, keys, kind, signers, verify_form, codeseps, flags, mutation, wrap })
+        (txs, any::<u16>(), gen::u64_edge(), prop::collection::vec(keys::key(), 1..4), 0u8..3, 1u8..8, any::<bool>(), prop_oneof![2 => Just(vec![]), 3 => prop::collection::vec(any::<u16>(), 1..3)], prop::collection::vec(0u8..12, 3), (prop::option::weighted(0.6, mutation), prop::option::weighted(0.35, wrap), any::<bool>()))
+            .prop_map(|(tx, idx, value, keys, kind, signers, verify_form, codeseps, flags, (mutation, wrap, same_object))| Case { tx, idx, value, keys, kind, signers, verify_form, codeseps, flags, mutation, wrap, same_object })
             .boxed()
     }
 
@@ -295,6 +298,7 @@ impl Property for C15 {
         let mut key_bytes: Vec<Vec<u8>> = c.keys.iter().map(|k| k.pub_bytes()).collect();
 
         // 2. one optional mutation
+        let r_signed = r.clone();
         let mut mutated = false;
         if let Some(m) = &c.mutation {
             mutated = true;
@@ -499,6 +503,58 @@ impl Property for C15 {
                 format!("accepted={} (run {:?}, top of stack {:?}) kind {} mutation {:?}", accepted, res.as_ref().map_err(|e| e.to_string()), interp.state().stack.last().map(hex::encode), c.kind % 3, c.mutation),
                 format!("accepted={} by the reference verifier (subscript {}, value {}, sigs {:?})", predicted, short_hex(&sub_final), value, sigs.iter().map(hex::encode).collect::<Vec<_>>()),
             ));
+        }
+        // 6. the same spend on the object that signed, edited through the setters instead of re-parsed
+        if c.same_object {
+            let mut live = tx;
+            if r.version != r_signed.version {
+                lib_call("set_version", || live.set_version(r.version))?;
+            }
+            if r.locktime != r_signed.locktime {
+                lib_call("set_nlocktime", || live.set_nlocktime(r.locktime))?;
+            }
+            for k in 0..r.ins.len() {
+                if r.ins[k] != r_signed.ins[k] {
+                    let mut x = live.get_input(k).ok_or_else(|| failure("get_input", "None", "Some"))?;
+                    let mut id = r.ins[k].txid_wire.to_vec();
+                    id.reverse();
+                    x.set_prev_tx_id(&id);
+                    x.set_vout(r.ins[k].vout);
+                    x.set_sequence(r.ins[k].sequence);
+                    lib_call("set_input", || live.set_input(k, &x))?;
+                }
+            }
+            for k in 0..r.outs.len() {
+                if k >= r_signed.outs.len() {
+                    let s = Script::from_bytes(&r.outs[k].script).map_err(|e| failure("output_script", e.to_string(), "Ok"))?;
+                    lib_call("add_output", || live.add_output(&bsv::TxOut::new(r.outs[k].value, &s)))?;
+                } else if r.outs[k] != r_signed.outs[k] {
+                    let s = Script::from_bytes(&r.outs[k].script).map_err(|e| failure("output_script", e.to_string(), "Ok"))?;
+                    lib_call("set_output", || live.set_output(k, &bsv::TxOut::new(r.outs[k].value, &s)))?;
+                }
+            }
+            let mut x = live.get_input(idx).ok_or_else(|| failure("get_input", "None", "Some"))?;
+            x.set_unlocking_script(&unlock_script);
+            x.set_locking_script(&lock_final);
+            x.set_satoshis(value);
+            lib_call("set_input", || live.set_input(idx, &x))?;
+            let (lb, sb) = (live.to_bytes().map_err(|e| failure("to_bytes", e.to_string(), "Ok"))?, spend.to_bytes().map_err(|e| failure("to_bytes", e.to_string(), "Ok"))?);
+            if lb != sb {
+                return Err(failure("edited_object_serialises_like_the_reparsed_spend", short_hex(&lb), short_hex(&sb)));
+            }
+            let mut interp = lib_call("Interpreter::from_transaction", || Interpreter::from_transaction(&live, idx))?.map_err(|e| failure("from_transaction", e.to_string(), "Ok"))?;
+            let res = lib_call("run", || interp.run())?;
+            let top_true = interp.state().stack.last().map(|t| crate::refimpl::interp_model::truthy(t)).unwrap_or(false);
+            let accepted = res.is_ok() && top_true;
+            if accepted != predicted {
+                return Err(failure(
+                    if predicted { "valid_spend_accepted_on_signing_object" } else { "invalid_spend_rejected_on_signing_object" },
+                    format!("accepted={} (run {:?}) on the transaction object that signed, edited through the setters; mutation {:?}", accepted, res.as_ref().map_err(|e| e.to_string()), c.mutation),
+                    format!("accepted={} by the reference verifier (and by the library on the re-parsed transaction)", predicted),
+                ));
+            }
+            o.label("same-object");
+            o.label_if(mutated && r != r_signed, "same-object-edited-after-signing");
         }
         if c.kind % 3 == 2 && sp.signer_idx.len() == 1 && c.keys.len() == 1 {
             o.label("1-of-1");
